@@ -10,6 +10,9 @@ use crate::util::*;
 use rssl_ast as ast;
 use rssl_text::Located;
 
+#[path = "c09_stmt.rs"]
+mod stmt;
+
 // ------------------------------------------------------------------------------------------ s-expressions
 #[derive(Clone, Debug, PartialEq)]
 pub enum SExp {
@@ -161,11 +164,34 @@ const BINOPS: [(&str, ast::BinOp); 30] = [
     ("Sequence", ast::BinOp::Sequence),
 ];
 
-const MODIFIERS: [(&str, ast::TypeModifier); 4] = [
+const MODIFIERS: [(&str, ast::TypeModifier); 27] = [
     ("const", ast::TypeModifier::Const),
     ("volatile", ast::TypeModifier::Volatile),
     ("row_major", ast::TypeModifier::RowMajor),
     ("column_major", ast::TypeModifier::ColumnMajor),
+    ("unorm", ast::TypeModifier::Unorm),
+    ("snorm", ast::TypeModifier::Snorm),
+    ("in", ast::TypeModifier::In),
+    ("out", ast::TypeModifier::Out),
+    ("inout", ast::TypeModifier::InOut),
+    ("extern", ast::TypeModifier::Extern),
+    ("static", ast::TypeModifier::Static),
+    ("groupshared", ast::TypeModifier::GroupShared),
+    ("precise", ast::TypeModifier::Precise),
+    ("nointerpolation", ast::TypeModifier::NoInterpolation),
+    ("linear", ast::TypeModifier::Linear),
+    ("centroid", ast::TypeModifier::Centroid),
+    ("noperspective", ast::TypeModifier::NoPerspective),
+    ("sample", ast::TypeModifier::Sample),
+    ("point", ast::TypeModifier::Point),
+    ("line", ast::TypeModifier::Line),
+    ("triangle", ast::TypeModifier::Triangle),
+    ("lineadj", ast::TypeModifier::LineAdj),
+    ("triangleadj", ast::TypeModifier::TriangleAdj),
+    ("vertices", ast::TypeModifier::Vertices),
+    ("primitives", ast::TypeModifier::Primitives),
+    ("indices", ast::TypeModifier::Indices),
+    ("payload", ast::TypeModifier::Payload),
 ];
 
 fn unop_name(op: &ast::UnaryOp) -> &'static str {
@@ -1393,8 +1419,19 @@ fn run_source(text: &str) -> Outcome {
             };
         }
     };
-    let d1 = strip_locations(&format!("{:?}", m1));
-    let d2 = strip_locations(&format!("{:?}", m2));
+    // ambiguous nodes of the re-read module are resolved as the type checker does, with the names the first tree uses as
+    // types (a dropped `inline` in front of `T<a> x;` turns the unambiguous declaration into an ambiguous statement);
+    // both trees go through the same rebuilding so that only genuine differences remain
+    let mut types = Vec::new();
+    stmt::type_names_module(&m1.root_definitions, &mut types);
+    let m1r = ast::Module {
+        root_definitions: stmt::resolve_module(&m1.root_definitions, &types),
+    };
+    let m2r = ast::Module {
+        root_definitions: stmt::resolve_module(&m2.root_definitions, &types),
+    };
+    let d1 = strip_locations(&format!("{:?}", m1r));
+    let d2 = strip_locations(&format!("{:?}", m2r));
     if d1 != d2 {
         let at = d1.bytes().zip(d2.bytes()).position(|(a, b)| a != b).unwrap_or(d1.len().min(d2.len()));
         let lo = at.saturating_sub(60);
@@ -1408,7 +1445,7 @@ fn run_source(text: &str) -> Outcome {
             ),
         };
     }
-    match guard(|| rssl_formatter::format(&m2, rssl_formatter::Target::Hlsl)) {
+    match guard(|| rssl_formatter::format(&m2r, rssl_formatter::Target::Hlsl)) {
         Ok(Ok(t2)) if t2 == t1 => Outcome {
             obs: format!("printed {} bytes ==> same tree", t1.len()),
             oracle: "ok".into(),
@@ -1584,6 +1621,7 @@ impl SrcGen {
             3 => t = format!("precise {}", t),
             4 => t = format!("row_major {}", t),
             5 => t = format!("{} const", t),
+            6 if self.rng.chance(1, 3) => t = format!("{} volatile", t),
             _ => {}
         }
         t
@@ -1632,6 +1670,9 @@ impl SrcGen {
             3 => format!("*{}", n),
             4 => format!("&{}", n),
             5 => format!("{}[{}]", n, self.expr(1)),
+            6 if self.rng.chance(1, 3) => format!("* const {}", n),
+            6 if self.rng.chance(1, 2) => format!("* const volatile * {}", n),
+            6 => format!("{} [[vk::a({})]]", n, self.rng.below(9)),
             _ => n,
         }
     }
@@ -1732,13 +1773,100 @@ impl SrcGen {
             }
         }
     }
+    fn semantic(&mut self) -> &'static str {
+        *self.rng.pick(&[
+            "SV_DispatchThreadID", "SV_GroupID", "SV_GroupIndex", "SV_GroupThreadID", "SV_VertexID", "SV_InstanceID",
+            "SV_PrimitiveID", "SV_Position", "SV_Target", "SV_Target3", "SV_Depth", "SV_DepthGreaterEqual",
+            "SV_DepthLessEqual", "TEXCOORD0", "COLOR",
+        ])
+    }
+    fn param(&mut self) -> String {
+        let dir = *self.rng.pick(&["", "", "in ", "out ", "inout ", "const "]);
+        let ty = *self.rng.pick(&["float", "uint", "float4", "S", "vector<float, 4>"]);
+        let n = format!("p{}", self.rng.below(9));
+        let decl = match self.rng.below(6) {
+            0 => format!("{}[{}]", n, 1 + self.rng.below(4)),
+            _ => n,
+        };
+        let mut p = format!("{}{} {}", dir, ty, decl);
+        if self.rng.chance(1, 4) {
+            p.push_str(&format!(" : {}", self.semantic()));
+        }
+        if dir != "out " && dir != "inout " && self.rng.chance(1, 5) {
+            p.push_str(&format!(" = {}", self.expr(1)));
+        }
+        p
+    }
+    fn function(&mut self, name: &str, allow_attr: bool) -> String {
+        self.kinds.add("function");
+        let mut s = String::new();
+        if self.rng.chance(1, 6) {
+            s.push_str(*self.rng.pick(&["template<typename T> ", "template<typename T, uint N> ", "template<uint N> "]));
+        } else if allow_attr && self.rng.chance(1, 4) {
+            s.push_str(*self.rng.pick(&["[numthreads(8, 8, 1)] ", "[outputtopology(\"triangle\")] ", "[WaveSize(32)] "]));
+        }
+        let k = self.rng.below(4);
+        let params: Vec<String> = (0..k).map(|_| self.param()).collect();
+        let ret = *self.rng.pick(&["void", "float", "float4", "S", "inline float", "static inline uint"]);
+        s.push_str(&format!("{} {}({})", ret, name, params.join(", ")));
+        if self.rng.chance(1, 5) {
+            s.push_str(&format!(" : {}", self.semantic()));
+        }
+        if self.rng.chance(1, 8) {
+            s.push_str(";\n");
+        } else {
+            let n = self.rng.below(4);
+            let body: Vec<String> = (0..n).map(|_| self.stmt(2)).collect();
+            s.push_str(&format!(" {{ {} }}\n", body.join(" ")));
+        }
+        s
+    }
     fn module(&mut self) -> String {
         let mut s = String::new();
         if self.rng.chance(1, 3) {
             s.push_str(&format!("static const {} g{} = {};\n", self.ty(), self.rng.below(9), self.init(1)));
         }
+        if self.rng.chance(1, 6) {
+            self.kinds.add("global-register");
+            s.push_str(*self.rng.pick(&[
+                "Texture2D<float4> g_t : register(t0);\n",
+                "RWStructuredBuffer<S> g_u : register(u3, space1);\n",
+                "SamplerState g_s : register(s1);\n",
+                "ByteAddressBuffer g_b : register(space2);\n",
+            ]));
+        }
+        if self.rng.chance(1, 6) {
+            self.kinds.add("cbuffer");
+            s.push_str(&format!(
+                "cbuffer C{} : register(b{}) {{ float4 m0; uint m1[2], m2; {} m3; }}\n",
+                self.rng.below(4),
+                self.rng.below(4),
+                *self.rng.pick(&["row_major float3x3", "float", "S"])
+            ));
+        }
+        if self.rng.chance(1, 6) {
+            self.kinds.add("enum");
+            s.push_str(&format!("enum E{} {{ A, B = {}, C = A + 1, }};\n", self.rng.below(4), self.expr(1)));
+        }
         if self.rng.chance(1, 4) {
-            s.push_str("struct S { float x; uint y[2]; float4 z : TEXCOORD0; };\n");
+            self.kinds.add("struct");
+            let method = if self.rng.chance(1, 2) { self.function("m", false) } else { String::new() };
+            s.push_str(&format!(
+                "struct S {{ float x; uint y[2]; float4 z : TEXCOORD0; {} {} }};\n",
+                if self.rng.chance(1, 3) { "[[vk::offset(16)]] float w;" } else { "" },
+                method
+            ));
+        }
+        if self.rng.chance(1, 8) {
+            self.kinds.add("struct-template");
+            s.push_str("template<typename T> struct P : S { T a; T b[2]; };\n");
+        }
+        let f = self.function("f", true);
+        if self.rng.chance(1, 6) {
+            self.kinds.add("namespace");
+            s.push_str(&format!("namespace N {{ {} }}\n", f));
+        } else {
+            s.push_str(&f);
         }
         let n = 1 + self.rng.below(4);
         let body: Vec<String> = (0..n).map(|_| self.stmt(3)).collect();
@@ -1748,7 +1876,7 @@ impl SrcGen {
             2 => "out float4 o, inout S s, float c[4]",
             _ => "const float a = 1.5f",
         };
-        s.push_str(&format!("{} f({}) {{ {} }}\n", *self.rng.pick(&["void", "float", "float4"]), params, body.join(" ")));
+        s.push_str(&format!("{} h({}) {{ {} }}\n", *self.rng.pick(&["void", "float", "float4"]), params, body.join(" ")));
         s
     }
 }
@@ -1770,6 +1898,51 @@ fn run_request(line: &str, out: &mut Out, hist: &mut Stats) {
                 let kind = fail_kind(&o.oracle);
                 let (mc, mt) = shrink(c, &t, &kind);
                 let key = format!("{} {} {}", kind, mc.name(), mt.show());
+                hist.classes.add(&key);
+                o.oracle = format!("{} min={}", o.oracle, key);
+            }
+            out.case(line, &o.obs, &o.oracle);
+        }
+        ["C09.st", tree] => {
+            let t = match parse_sexp(tree) {
+                Some(t) => t,
+                None => {
+                    out.case(line, "bad-request", "SKIP:bad request");
+                    return;
+                }
+            };
+            let mut o = stmt::run_stmt(&t);
+            hist.total += 1;
+            hist.ctx.add("st");
+            count_nodes(&t, &mut hist.nodes, &mut hist.ops);
+            let k = if o.oracle == "ok" { "ok".to_string() } else { o.oracle.chars().take(48).collect() };
+            hist.outcome.add(&k);
+            if o.oracle.starts_with("FAIL") {
+                let kind = fail_kind(&o.oracle);
+                let min = stmt::shrink_stmt(&t, &kind);
+                let key = format!("st {} {}", kind, min.show());
+                hist.classes.add(&key);
+                o.oracle = format!("{} min={}", o.oracle, key);
+            }
+            out.case(line, &o.obs, &o.oracle);
+        }
+        ["C09.def", tree] => {
+            let t = match parse_sexp(tree) {
+                Some(t) => t,
+                None => {
+                    out.case(line, "bad-request", "SKIP:bad request");
+                    return;
+                }
+            };
+            let mut o = stmt::run_def(&t);
+            hist.total += 1;
+            hist.ctx.add("def");
+            count_nodes(&t, &mut hist.nodes, &mut hist.ops);
+            let k = if o.oracle == "ok" { "ok".to_string() } else { o.oracle.chars().take(48).collect() };
+            hist.outcome.add(&k);
+            if o.oracle.starts_with("FAIL") {
+                let kind = fail_kind(&o.oracle);
+                let key = format!("def {} {}", kind, t.show());
                 hist.classes.add(&key);
                 o.oracle = format!("{} min={}", o.oracle, key);
             }
@@ -1997,6 +2170,212 @@ impl Gen {
         t
     }
 
+    /// bits of a finite double: random patterns, subnormals, extremes, neighbours of powers of two and of ten, values whose
+    /// shortest decimal form has 15-17 significant digits, long digit strings (stream `random-literals`)
+    fn f64_bits(&mut self) -> u64 {
+        let r = self.rng.below(100);
+        let mut bits: u64 = if r < 20 {
+            self.rng.next() & 0x7fff_ffff_ffff_ffff
+        } else if r < 26 {
+            self.rng.next() & 0x000f_ffff_ffff_ffff // subnormal
+        } else if r < 30 {
+            *self.rng.pick(&[0x7fef_ffff_ffff_ffffu64, 0x0010_0000_0000_0000, 1, 0x7ff0_0000_0000_0000, 0x000f_ffff_ffff_ffff])
+        } else if r < 42 {
+            // 2^k and its neighbours
+            let k = self.rng.below(2046) + 1;
+            let b = k << 52;
+            b.wrapping_add(self.rng.below(5)).wrapping_sub(2)
+        } else if r < 54 {
+            // 10^k and its neighbours
+            let k = self.rng.below(617) as i32 - 308;
+            let v: f64 = format!("1e{}", k).parse().unwrap_or(1.0);
+            v.to_bits().wrapping_add(self.rng.below(5)).wrapping_sub(2)
+        } else if r < 80 {
+            // a decimal with 15-19 significant digits and a small scale: d.ddd… * 10^e
+            let nd = 15 + self.rng.below(5);
+            let mut digits = String::new();
+            digits.push((b'1' + self.rng.below(9) as u8) as char);
+            digits.push('.');
+            for _ in 1..nd {
+                digits.push((b'0' + self.rng.below(10) as u8) as char);
+            }
+            let e = self.rng.below(25) as i32 - 4;
+            let v: f64 = format!("{}e{}", digits, e).parse().unwrap_or(1.0);
+            v.to_bits()
+        } else {
+            // uniform in [0, 10^k)
+            let k = *self.rng.pick(&[1.0f64, 10.0, 1000.0, 1.0e6, 1.0e15, 1.0e17]);
+            let u = (self.rng.next() >> 11) as f64 / (1u64 << 53) as f64;
+            (u * k).to_bits()
+        };
+        if (bits >> 52) & 0x7ff == 0x7ff && bits & 0x000f_ffff_ffff_ffff != 0 {
+            bits &= 0xfff0_0000_0000_0000; // no NaN here (own corpus lines): infinity instead
+        }
+        bits & 0x7fff_ffff_ffff_ffff
+    }
+
+    fn f32_bits(&mut self) -> u32 {
+        let r = self.rng.below(100);
+        let mut bits: u32 = if r < 30 {
+            (self.rng.next() as u32) & 0x7fff_ffff
+        } else if r < 38 {
+            (self.rng.next() as u32) & 0x007f_ffff
+        } else if r < 44 {
+            *self.rng.pick(&[0x7f7f_ffffu32, 0x0080_0000, 1, 0x7f80_0000, 0x007f_ffff])
+        } else if r < 58 {
+            let k = (self.rng.below(254) + 1) as u32;
+            (k << 23).wrapping_add(self.rng.below(5) as u32).wrapping_sub(2)
+        } else if r < 72 {
+            let k = self.rng.below(77) as i32 - 38;
+            let v: f32 = format!("1e{}", k).parse().unwrap_or(1.0);
+            v.to_bits().wrapping_add(self.rng.below(5) as u32).wrapping_sub(2)
+        } else if r < 88 {
+            let nd = 6 + self.rng.below(5);
+            let mut digits = String::new();
+            digits.push((b'1' + self.rng.below(9) as u8) as char);
+            digits.push('.');
+            for _ in 1..nd {
+                digits.push((b'0' + self.rng.below(10) as u8) as char);
+            }
+            let e = self.rng.below(20) as i32 - 6;
+            let v: f32 = format!("{}e{}", digits, e).parse().unwrap_or(1.0);
+            v.to_bits()
+        } else {
+            let k = *self.rng.pick(&[1.0f32, 10.0, 1000.0, 1.0e6]);
+            let u = (self.rng.next() >> 40) as f32 / (1u64 << 24) as f32;
+            (u * k).to_bits()
+        };
+        if (bits >> 23) & 0xff == 0xff && bits & 0x007f_ffff != 0 {
+            bits &= 0xff80_0000;
+        }
+        bits & 0x7fff_ffff
+    }
+
+    /// a literal of any kind drawn from the whole value range (sign bit set in about one case of eight: negative
+    /// literals are a known defect class)
+    fn wide_literal(&mut self) -> SExp {
+        let neg = self.rng.chance(1, 8);
+        let int_mag = |g: &mut Gen, max_bits: u64| -> u64 {
+            let nb = 1 + g.rng.below(max_bits);
+            let v = g.rng.next() >> (64 - nb);
+            match g.rng.below(6) {
+                0 => (1u64 << (nb - 1)).wrapping_sub(1),
+                1 => 1u64 << (nb - 1),
+                2 => {
+                    let p = 10u64.checked_pow(g.rng.below(20) as u32).unwrap_or(1);
+                    let w = p.wrapping_add(g.rng.below(3)).wrapping_sub(1);
+                    if max_bits < 64 { w & ((1u64 << max_bits) - 1) } else { w }
+                }
+                _ => v,
+            }
+        };
+        let s = match self.rng.below(9) {
+            0 => format!("(lit i {})", int_mag(self, 64)),
+            1 => format!("(lit u {})", int_mag(self, 32) & 0xffff_ffff),
+            2 => format!("(lit ul {})", int_mag(self, 64)),
+            3 => {
+                let m = int_mag(self, 63) & 0x7fff_ffff_ffff_ffff;
+                format!("(lit l {}{})", if neg && m != 0 { "-" } else { "" }, m)
+            }
+            4 | 5 => format!("(lit f 0x{:016x})", self.f64_bits() | if neg { 1 << 63 } else { 0 }),
+            6 => format!("(lit f64 0x{:016x})", self.f64_bits() | if neg { 1 << 63 } else { 0 }),
+            7 => format!("(lit f32 0x{:08x})", self.f32_bits() | if neg { 1 << 31 } else { 0 }),
+            _ => format!("(lit h 0x{:08x})", self.f32_bits() | if neg { 1 << 31 } else { 0 }),
+        };
+        parse_sexp(&s).unwrap()
+    }
+
+    /// a type id with template arguments, modifiers and an abstract declarator (stream `random-types`)
+    fn rich_type(&mut self, d: usize) -> SExp {
+        let n = *self.rng.pick(&["float", "uint", "T", "S", "N::S", "vector"]);
+        let mut t = if d > 0 && self.rng.chance(1, 2) {
+            let mut v = vec![SExp::list("n", n.split("::").map(SExp::atom).collect())];
+            for _ in 0..1 + self.rng.below(2) {
+                v.push(self.rich_eot(d - 1));
+            }
+            SExp::list("tyt", v)
+        } else {
+            SExp::list("ty", n.split("::").map(SExp::atom).collect())
+        };
+        for _ in 0..self.rng.below(3) {
+            if self.rng.chance(1, 3) {
+                let m = MODIFIERS[self.rng.below(MODIFIERS.len() as u64) as usize].0;
+                t = SExp::list(m, vec![t]);
+            }
+        }
+        match self.rng.below(12) {
+            0 => t = SExp::list("ptr", vec![t]),
+            1 => t = SExp::list("ref", vec![t]),
+            2 => t = SExp::list("arr", vec![t, self.leaf()]),
+            3 => t = SExp::list("arr", vec![t]),
+            4 => t = SExp::list("ptr", vec![SExp::list("ptr", vec![t])]),
+            5 => t = SExp::list("arr", vec![SExp::list("arr", vec![t, self.leaf()]), self.leaf()]),
+            // not generated: a reference to a reference (prints `&&`, one token) and pointer / array mixes in an
+            // abstract declarator (`T*[n]` reads `[n]` as an attribute, `T (*)[n]` has no production): neither the
+            // parser nor an exporter builds them
+            6 if self.rng.chance(1, 2) => t = SExp::list("ref", vec![SExp::list("ptr", vec![t])]),
+            6 => t = SExp::list("ptr", vec![SExp::list("ref", vec![t])]),
+            _ => {}
+        }
+        t
+    }
+
+    fn rich_eot(&mut self, d: usize) -> SExp {
+        match self.rng.below(4) {
+            0 => SExp::list("T", vec![self.rich_type(d)]),
+            1 => {
+                let n = *self.rng.pick(&["T", "U", "float"]);
+                SExp::list("B", vec![SExp::list("id", vec![SExp::atom(n)]), SExp::list("ty", vec![SExp::atom(n)])])
+            }
+            2 => SExp::list("E", vec![self.literal(false)]),
+            _ => SExp::list("E", vec![self.expr(d.min(2), false)]),
+        }
+    }
+
+    /// expression trees around casts / sizeof / template calls with rich types
+    fn typed_expr(&mut self, d: usize) -> SExp {
+        if d <= 1 {
+            return self.leaf();
+        }
+        match self.rng.below(10) {
+            0 | 1 | 2 => {
+                let t = self.rich_type(d - 1);
+                SExp::list("cast", vec![t, self.typed_expr(d - 1)])
+            }
+            3 => SExp::list("sizeof", vec![self.rich_eot(d - 1)]),
+            4 | 5 => {
+                let f = SExp::list("id", vec![SExp::atom(*self.rng.pick(&["f", "g", "T"]))]);
+                let mut targs = Vec::new();
+                for _ in 0..1 + self.rng.below(2) {
+                    targs.push(self.rich_eot(d - 1));
+                }
+                let mut args = Vec::new();
+                for _ in 0..self.rng.below(3) {
+                    args.push(self.typed_expr(d - 1));
+                }
+                SExp::list("call", vec![f, SExp::List(targs), SExp::List(args)])
+            }
+            6 => {
+                let op = UNOPS[self.rng.below(10) as usize].0;
+                un(op, self.typed_expr(d - 1))
+            }
+            7 | 8 => {
+                let op = BINOPS[self.rng.below(30) as usize].0;
+                let l = self.typed_expr(d - 1);
+                let r = self.typed_expr(d - 1);
+                bin(op, l, r)
+            }
+            _ => {
+                let o = self.typed_expr(d - 1);
+                match self.rng.below(3) {
+                    0 => SExp::list("mem", vec![o, SExp::atom("m")]),
+                    1 => SExp::list("sub", vec![o, self.typed_expr(d - 1)]),
+                    _ => SExp::list("call", vec![o, SExp::List(vec![]), SExp::List(vec![self.typed_expr(d - 1)])]),
+                }
+            }
+        }
+    }
+
     fn eot(&mut self, d: usize) -> SExp {
         match self.rng.below(3) {
             0 => SExp::list("T", vec![self.type_id()]),
@@ -2123,6 +2502,30 @@ pub fn run(args: &Args, out: &mut Out) {
         run_request(&line, out, &mut st);
     }
     out.stat(&st.json("random-exotic"));
+    // stream 3b: casts, sizeof and template calls over types with template arguments, modifiers and declarators
+    let mut st = Stats::default();
+    for i in 0..n / 2 {
+        let d = 2 + (i % 4) as usize;
+        let t = g.typed_expr(d);
+        let ctx = *g.rng.pick(&["ret", "ret", "arg", "idx", "init", "stmt"]);
+        let line = format!("C09.rt\t{}\t{}", ctx, t.show());
+        run_request(&line, out, &mut st);
+    }
+    out.stat(&st.json("random-types"));
+    // stream 3c: literals of every kind over the whole value range ("every literal reads back with the same value and type")
+    let mut st = Stats::default();
+    for i in 0..(if thorough { 60000 } else { 6000 }) {
+        let l = g.wide_literal();
+        // alone, and as an operand (adjacency with operators and member access)
+        let t = match i % 6 {
+            0 => bin("Subtract", SExp::list("id", vec![SExp::atom("a")]), l),
+            1 => un("Minus", l),
+            _ => l,
+        };
+        let line = format!("C09.rt\tret\t{}", t.show());
+        run_request(&line, out, &mut st);
+    }
+    out.stat(&st.json("random-literals"));
     // stream 4: parser-produced trees of whole modules: statements, declarators, types, initialisers, attributes
     let mut sg = SrcGen {
         rng: g.rng.fork(),
@@ -2134,6 +2537,37 @@ pub fn run(args: &Args, out: &mut Out) {
         let line = format!("C09.src\t{}", hex(text.as_bytes()));
         run_request(&line, out, &mut st);
     }
+    // stream 5: the statements of such programs as trees (ambiguous declaration/expression nodes resolved), which the
+    // model prints and reads back as well
+    let mut sg2 = SrcGen {
+        rng: g.rng.fork(),
+        kinds: Hist::default(),
+    };
+    let mut st5 = Stats::default();
+    let want = if thorough { 40000 } else { 3000 };
+    let mut made = 0;
+    while made < want {
+        let text = sg2.module();
+        for t in stmt::statements_of(&text) {
+            let line = format!("C09.st\t{}", t.show());
+            run_request(&line, out, &mut st5);
+            made += 1;
+        }
+    }
+    out.stat(&st5.json("statement-trees"));
+    // stream 6: function and struct definitions of such programs as trees
+    let mut st6 = Stats::default();
+    let want = if thorough { 20000 } else { 2000 };
+    let mut made = 0;
+    while made < want {
+        let text = sg2.module();
+        for t in stmt::defs_of(&text) {
+            let line = format!("C09.def\t{}", t.show());
+            run_request(&line, out, &mut st6);
+            made += 1;
+        }
+    }
+    out.stat(&st6.json("definition-trees"));
     out.stat(&format!(
         "{{\"stream\":\"source-modules\",\"cases\":{},\"statement_kinds\":{},\"outcomes\":{},\"minimal_failing_shapes\":{}}}",
         st.total,
